@@ -34,6 +34,16 @@ func (e *Enc) nameLoaded(env *evalEnv, sort, t string) string {
 	return e.nameTerm("lv", sort, t)
 }
 
+// ixfn: the contract asks for element indices written with the uninterpreted sum `ix` (see backgroundO).
+func (e *Enc) ixfn() bool { return e.ct != nil && e.ct.Opts["index-fn"] != "" }
+
+func (e *Enc) ixAdd(off, i string) string {
+	if e.ixfn() {
+		return app("ix", off, i)
+	}
+	return app("+", off, i)
+}
+
 // sideOK: facts about the values met while evaluating may be asserted (not under a binder, not at an arbitrary index).
 func (env *evalEnv) sideOK() bool { return len(env.bound) == 0 && !env.quiet }
 
@@ -118,6 +128,9 @@ func (e *Enc) callEnv(callee *ssa.Function, sig *types.Signature, params []strin
 		}
 	}
 	env.names["A0"] = binding{Val{e.allocCounter(pre), "Int"}, nil}
+	// CA0: the allocation mark at the entry of the *calling* function (for preconditions of the form "the argument was
+	// allocated by the caller during this activation"); unbound when a contract is read from the callee's side
+	env.names["CA0"] = binding{Val{e.allocCounter(e.entryHeap), "Int"}, nil}
 	if results != nil {
 		res := sig.Results()
 		for i, rv := range results {
@@ -299,7 +312,7 @@ func (e *Enc) eval(sx *Sx, env *evalEnv) tv {
 			e.unsupp("at: %s is not a slice", args[0])
 			return tv{Val{"0", "Int"}, nil}
 		}
-		addr := app("elem", app("sarr", x.v.T), app("+", app("soff", x.v.T), i.v.T))
+		addr := app("elem", app("sarr", x.v.T), e.ixAdd(app("soff", x.v.T), i.v.T))
 		if srt := e.sortOf(st.Elem()); (srt == "Ref" || srt == "Slice") && env.sideOK() {
 			e.loadedRefFacts(env.heap, cellKey(st.Elem()), srt, addr)
 		}
@@ -440,6 +453,10 @@ func (e *Enc) eval(sx *Sx, env *evalEnv) tv {
 			k, _ := strconv.Atoi(e.ct.Opts["bytes-bound"])
 			return tv{Val{e.bytesExpand(env.heap, x.v.T, k), "B"}, nil}
 		}
+		if len(env.bound) > 0 {
+			// under a binder the term may mention bound variables: never name it
+			return tv{Val{e.sel(e.bytesHeap(env.heap), x.v.T), "B"}, nil}
+		}
 		bt := e.tokBytes(env.heap, x.v.T)
 		if env.sideOK() {
 			e.sideFact(env, app("=", app("blen", bt), app("slen", x.v.T))) // representation invariant of the byte-string view
@@ -544,6 +561,10 @@ func (e *Enc) eval(sx *Sx, env *evalEnv) tv {
 	case "to_int":
 		return tv{Val{app(h, ts...), "Int"}, nil}
 	case "select":
+		if len(ts) == 2 && len(args[0].List) > 0 && args[0].List[0].Atom == "H" {
+			// a read of a heap: goes through the framed-havoc reader like every load of the program
+			return tv{Val{e.sel(ts[0], ts[1]), "Int"}, lastT}
+		}
 		return tv{Val{app(h, ts...), "Int"}, lastT}
 	case "emb", "elem", "obj":
 		return tv{Val{app(h, ts...), "Ref"}, nil}
